@@ -372,6 +372,16 @@ def replayToFd (c : Cbuf) (len : Int) (cap : Nat) : Int × List UInt8 :=
 
 /-! ### buffer to buffer -/
 
+/-- the store and the metadata update of `cbuf_copier` for an effective length `len`;
+    "prevents copying data that will be overwritten if the cbuf wraps multiple times" -/
+def copyStore (src d : Cbuf) (nfree len : Nat) : Cbuf :=
+  let skip := if len > d.size then len - d.size else 0
+  let ncopy := len - skip
+  let bytes := circRead src.data (src.size + 1) ((src.iOut + skip) % (src.size + 1)) ncopy
+  let data' := circWrite d.data (d.size + 1) d.iIn bytes
+  let iDst := (d.iIn + ncopy) % (d.size + 1)
+  if ncopy > 0 then commit d nfree data' iDst ncopy else d
+
 /-- `cbuf_copier(src, dst, len, &ndropped)` for len > 0: (ret, ndropped, dst') -/
 def copier (src dst : Cbuf) (len0 : Nat) : Int × Nat × Cbuf :=
   let l0 := min len0 src.used
@@ -380,15 +390,7 @@ def copier (src dst : Cbuf) (len0 : Nat) : Int × Nat × Cbuf :=
     let (d, nfree) := maybeGrow dst l0
     match effLen d l0 with
     | none => (-1, 0, d)
-    | some len =>
-      let ndropped := len - (d.size - d.used)
-      -- "prevents copying data that will be overwritten if the cbuf wraps multiple times"
-      let skip := if len > d.size then len - d.size else 0
-      let ncopy := len - skip
-      let bytes := circRead src.data (src.size + 1) ((src.iOut + skip) % (src.size + 1)) ncopy
-      let data' := circWrite d.data (d.size + 1) d.iIn bytes
-      let iDst := (d.iIn + ncopy) % (d.size + 1)
-      (len, ndropped, if ncopy > 0 then commit d nfree data' iDst ncopy else d)
+    | some len => (len, len - (d.size - d.used), copyStore src d nfree len)
 
 /-- `cbuf_copy(src, dst, len, &ndropped)` (src ≠ dst) -/
 def copy (src dst : Cbuf) (len : Int) : Int × Nat × Cbuf :=
